@@ -108,7 +108,7 @@ PROPS = {
             "real steel-gen OpCode; u24/DenseInstruction/StackFrame/STACK_LIMIT extracted verbatim",
         ],
         "assumptions": [
-            "which call sites are classified as tail calls is decided per visitor function of analysis.rs (unit anl: if / begin / let / define / set! / application) against the visitor's contract; visit_lambda_function (body analysed in tail position, depth +1) and visit_atom are ASSUMED to satisfy that contract (read off the code: every assignment to the traversal fields is paired with its restore); how code_gen.rs turns the recorded call kind into TAILCALL / TCOJMP, the JIT tier's own tail-call paths and heap-side memory are NOT covered",
+            "which call sites are classified as tail calls is decided per visitor function of analysis.rs (unit anl: if / begin / let / define / set! / application) against the visitor's contract; visit_lambda_function (body analysed in tail position, depth +1) is ASSUMED to satisfy that contract (read off the code: every assignment to the traversal fields is paired with its restore); visit_atom is under contract since round 2; how code_gen.rs turns the recorded call kind into TAILCALL / TCOJMP, the JIT tier's own tail-call paths and heap-side memory are NOT covered",
             "per-call frame reuse implies a constant frame stack by induction over iterations (paper step)",
             "operand stacks of 5 values, arity <= 2 (Vec::drain under CBMC)",
         ],
@@ -154,13 +154,14 @@ PROPS = {
         "explanation": "span.rs under Verus with a loop invariant (unbounded number of spans)",
     },
     "C03": {
-        "units": ["rc", "pers"],
+        "units": ["rc", "pers", "anl"],
         "trusted_base": COMMON_TB + [
             "units/pers/prelude.rs: Gc = std::rc::Rc (get_mut is Some iff sole reference - the contract proved for BiasedRc::get_mut/make_mut in unit rc), im/imbl collections as exact finite map/set/sequence models, reduced SteelVal",
+            "units/anl/prelude.rs (see C09): the analysis pass's variable-read visitor",
         ],
         "assumptions": [
             "kernel 1 (the uniqueness oracle: RcBox::has_unique_ref, BiasedRc::get_mut / make_mut / try_unwrap) is decided by the C05 check on the real steel-rc crate and re-run here",
-            "the compiler's last-use analysis and MOVEREADLOCAL (which decide whether a second reference exists at run time), im-lists internals, struct field updates and threads are NOT covered",
+            "of the compiler's last-use analysis only the marking step is decided (AnalysisPass::visit_atom: every read - local, captured from the stack or from an enclosing closure - becomes the last use of the binding in scope); the pass that turns last uses into MOVEREADLOCAL, im-lists internals, struct field updates and threads are NOT covered",
             "collections of 2 entries with fixnum contents",
         ],
         "explanation": "uniqueness oracle (real steel-rc) + the primitives that mutate in place under it (verbatim extraction)",
